@@ -26,3 +26,12 @@ Theorem C10_webp_tree_size_bounded :
   /\ S (fnodes (ht_tree t)) = fleaves (ht_tree t).
 Proof. exact accepted_tree_size. Qed.
 Print Assumptions C10_webp_tree_size_bounded.
+
+(* the tables bitstream-io compiles from an accepted tree (model of compile_read_tree / compile_queue in
+   Webp/Huffman.v [total_tables], compared with the retained heap of CanonicalHuffmanTree::new on every run): exactly
+   one 256-entry table per leaf, at most the alphabet size *)
+Theorem C10_webp_tables_bounded :
+  forall (cl : list N) (t : htree), new_vec cl = Ok t ->
+  total_tables (ht_tree t) = length (symbols (index_from 0 cl)) /\ (total_tables (ht_tree t) <= length cl)%nat.
+Proof. exact accepted_tree_tables. Qed.
+Print Assumptions C10_webp_tables_bounded.
